@@ -11,6 +11,29 @@ import O4.Lemmas.Framing
 namespace O4.HsLemmas
 open O4.Handshake O4.Consts.Obfs4 O4.Consts.Ntor
 
+/-- a toy instance of the primitives (nothing cryptographic about it): witnesses that the
+    hypotheses the theorems put on abstract primitives (`HmacLen`, `HkdfLen`, `DhComm`, …) are
+    satisfiable -/
+def toyPrims : Handshake.Prims where
+  hmac k m := (k ++ m ++ List.replicate 32 0).take 32
+  x25519 a b := List.zipWith (· * ·) a b
+  hkdf s _ _ n := (s ++ List.replicate n 7).take n
+  reprToPublic r := r
+
+/-- HMAC-SHA256 returns `sha256.Size` bytes -/
+def HmacLen (P : Handshake.Prims) : Prop := ∀ k m, (P.hmac k m).length = keySeedLength
+
+/-- the HKDF reader yields exactly the requested number of bytes (up to its entropy limit) -/
+def HkdfLen (P : Handshake.Prims) : Prop := ∀ s salt info n, n ≤ 255 * 32 → (P.hkdf s salt info n).length = n
+
+theorem mark_length (P : Handshake.Prims) (hP : HmacLen P) (a b r : Bytes) :
+    (mark P a b r).length = markLength := by
+  simp [mark, hP _ _, keySeedLength, markLength]
+
+theorem mac_length (P : Handshake.Prims) (hP : HmacLen P) (a b body : Bytes) (h : Int) :
+    (mac P a b body h).length = macLength := by
+  simp [mac, hP _ _, keySeedLength, macLength]
+
 /-! ## decimal digits -/
 
 /-- value of a string of ASCII digits -/
@@ -175,6 +198,69 @@ theorem takeN_length (n : Nat) (tape a b : Bytes) (h : Ref.takeN n tape = some (
   · simp only [Option.some.injEq, Prod.mk.injEq] at h
     rw [← h.1, ← h.2]
     exact ⟨by simp; omega, (List.take_append_drop n tape).symm⟩
+
+/-! ## the tape source only ever drops bytes from the front -/
+
+/-- `t'` is what is left of tape `t` -/
+def TapeSuffix (t t' : GoRand.Tape) : Prop := ∃ d, t.data = d ++ t'.data
+
+theorem TapeSuffix.refl (t : GoRand.Tape) : TapeSuffix t t := ⟨[], rfl⟩
+theorem TapeSuffix.trans {a b c : GoRand.Tape} (h1 : TapeSuffix a b) (h2 : TapeSuffix b c) : TapeSuffix a c := by
+  obtain ⟨d1, e1⟩ := h1; obtain ⟨d2, e2⟩ := h2
+  exact ⟨d1 ++ d2, by rw [e1, e2, List.append_assoc]⟩
+
+theorem tape_int63_suffix (t : GoRand.Tape) : TapeSuffix t (GoRand.tapeSource.int63 t).2 :=
+  ⟨t.data.take 8, (List.take_append_drop 8 t.data).symm⟩
+
+theorem tape_int31_suffix (t : GoRand.Tape) : TapeSuffix t (GoRand.int31 GoRand.tapeSource t).2 :=
+  tape_int63_suffix t
+
+theorem rejectLoop_suffix (draw : GoRand.Tape → Nat × GoRand.Tape) (hd : ∀ t, TapeSuffix t (draw t).2)
+    (max n f : Nat) (s : GoRand.Tape) (v : Nat) (s' : GoRand.Tape)
+    (h : GoRand.rejectLoop draw max n f s = some (v, s')) : TapeSuffix s s' := by
+  induction f generalizing s with
+  | zero => simp [GoRand.rejectLoop] at h
+  | succ f ih =>
+    simp only [GoRand.rejectLoop] at h
+    split at h
+    · exact (hd s).trans (ih _ h)
+    · simp only [Option.some.injEq, Prod.mk.injEq] at h
+      rw [← h.2]; exact hd s
+
+theorem intn_suffix (n : Nat) (s : GoRand.Tape) (v : Nat) (s' : GoRand.Tape)
+    (h : GoRand.intn GoRand.tapeSource n s = some (v, s')) : TapeSuffix s s' := by
+  unfold GoRand.intn at h
+  split at h
+  · cases h
+  · split at h
+    · unfold GoRand.int31n at h
+      split at h
+      · simp only [Option.some.injEq, Prod.mk.injEq] at h
+        rw [← h.2]; exact tape_int31_suffix s
+      · exact rejectLoop_suffix _ tape_int31_suffix _ _ _ _ _ _ h
+    · unfold GoRand.int63n at h
+      split at h
+      · simp only [Option.some.injEq, Prod.mk.injEq] at h
+        rw [← h.2]; exact tape_int63_suffix s
+      · exact rejectLoop_suffix _ tape_int63_suffix _ _ _ _ _ _ h
+
+/-- `csrand.IntRange` leaves a suffix of the tape -/
+theorem intRange_suffix (lo hi : Nat) (tape : Bytes) (v : Int) (t : GoRand.Tape) (rest : Bytes)
+    (heq : CsRand.intRange GoRand.tapeSource (lo : Int) (hi : Int) ⟨tape, false⟩ = .ok v t)
+    (hr : t.data = rest) : ∃ d, tape = d ++ rest := by
+  unfold CsRand.intRange at heq
+  simp only [] at heq
+  split at heq
+  · cases heq
+  · split at heq
+    · cases heq
+    · split at heq
+      · cases heq
+      · rename_i w s' hw
+        simp only [CsRand.RangeResult.ok.injEq] at heq
+        obtain ⟨d, hd⟩ := intn_suffix _ _ _ _ hw
+        rw [← hr, ← heq.2]
+        exact ⟨d, hd⟩
 
 /-! ## lengths -/
 
